@@ -442,7 +442,28 @@ def r16h(ctx):
     ctx.check(ok, "R16h", f"{LAY}.contains", "a point is inside iff some layer contains it", "", key_detail="layered contains")
 
 
+def r16i(ctx):
+    repo = ctx.repo
+    ctx.rule("R16i", "attenuation_length / _atten_coeffs decide the shape of their result from the arguments as given: no parameter is replaced (e.g. a one-element "
+             "frequency array turned into a scalar) before the isinstance dispatch", expected=3, kind="N")
+    for q in (ANT, ARA, GRN):
+        for m in ("attenuation_length", "_atten_coeffs"):
+            owner, kind, fn = repo.lookup(q, m)
+            if fn is None or owner.qual != q:
+                continue
+            params = [a.arg for a in fn.args.args[1:]]
+            disp = [n for n in ast.walk(fn) if isinstance(n, ast.If) and "isinstance(" in u(n.test)]
+            first = min((n.lineno for n in disp), default=None)
+            rebinds = [n for n in ast.walk(fn) if isinstance(n, (ast.Assign, ast.AugAssign)) and any(isinstance(m_, ast.Name) and m_.id in params and isinstance(m_.ctx, ast.Store)
+                                                                                                    for t_ in (n.targets if isinstance(n, ast.Assign) else [n.target]) for m_ in ast.walk(t_))
+                       and (first is None or n.lineno <= first or any(n in list(ast.walk(d_)) for d_ in disp))]
+            bad = [n for n in rebinds if not (isinstance(n, ast.Assign) and is_call(n.value) and u(n.value.func) in ("np.array", "np.asarray", "np.atleast_1d") and u(n.value.args[0]) in params)]
+            ctx.check(not bad, "R16i", f"{q}.{m}", "parameters reach the shape dispatch unchanged", "; ".join(u(x)[:90] for x in bad), key_detail="parameter replaced",
+                      loc=ctx.loc(owner.module, fn))
+
+
 def run(ctx):
+    ctx.guard(r16i)
     ctx.guard(r16a)
     ctx.guard(r16b)
     ctx.guard(r16c)
@@ -455,6 +476,8 @@ def run(ctx):
 
 SELFTEST = {
     "faults": [
+        {"name": "one-element frequency array turned into a scalar", "file": "pyrex/ice_model.py", "old": "        with np.errstate(divide='ignore'):\n            # w is log of frequency in GHz",
+         "new": "        if isinstance(f, np.ndarray) and f.size==1:\n            f = f.item()\n        with np.errstate(divide='ignore'):\n            # w is log of frequency in GHz", "rule": "R16i"},
         {"name": "whole-array fast path with a closed containment test", "file": "pyrex/custom/layered_ice/ice_model.py", "old": "            single_value = False\n\n        indices = []\n",
          "new": "            single_value = False\n            for layer in self.layers:\n                if layer.valid_range[0]<=np.min(z) and np.max(z)<=layer.valid_range[1]:\n                    return np.asarray(layer.index(np.asarray(z)))\n\n        indices = []\n",
          "rule": "R16h"},
